@@ -31,14 +31,18 @@ Layer **L1 for PyPI** on plain-release operands of up to three segments and thre
 final-release candidates: `== <= >= < >` (`pypi_L1`), `~=` (`pypi_L1_compat`), `== N.*`
 (`pypi_L1_eq_star`) against `Ref.PepClause.contains`.
 
-**Stated, not proved here** (`C03_npm_partial`, …): the full statements restricted to
-inputs outside the finding classes. Outside L1 they rest on the correspondence harness
-(`agree` / `not-rejected` oracles on every generated pair outside the classes, the model
-being byte-identical to the code on the same op lines): layer L2 (AND = `Intersect`, OR =
-`canon ∘ append`) additionally on C09's set laws, layer L3 (prerelease admission) and the
-string layer (tokens, `Parse`) on the correspondence alone; so do PyPI `!=`, PyPI operands with
-a pre/post/dev suffix or more than three segments (`rebuildExtension` re-parses the canonical
-text), and Maven entirely.
+**Layers L2 and L3** are proved in `Props/C03b.lean` (AND = `Intersect`, OR = `canon ∘ append` on
+well-formed spans; multi-comparator requirements on release candidates, AST and token level) and
+`Props/C03c.lean` (npm prerelease candidates: one comparator and AND lists); `L2_and`, `L2_or`,
+`L3_npm` below are the original statements (the literal `L2_or` is false on the empty list, see C03b).
+
+**Stated, not proved** (`C03_npm_partial`, …): the full statements restricted to inputs outside the
+finding classes. What is missing after C03b/C03c rests on the correspondence harness (`agree` /
+`not-rejected` oracles on every generated pair outside the classes, the model being byte-identical to
+the code on the same op lines): the string layer for all requirements (tokens, `Parse` of partial
+operands), hyphen ranges, OR lists with prerelease candidates, Cargo prerelease candidates, PyPI `!=`
+and operands with a pre/post/dev suffix or more than three segments (`rebuildExtension` re-parses the
+canonical text), and Maven entirely.
 -/
 namespace DepsDev.Props.C03
 
@@ -432,7 +436,7 @@ theorem cargo_classes_nil (c : Comparator) (x : SemVerAst) (hx : x.pre = [])
   subst hx
   simp [CargoReq.classes, NpmRange.pre000, NpmRange.gtSuccPre, CargoReq.prePartial, NpmRange.signedIdent, hsig]
 
-/-! ## Layers L2 and L3 (stated precisely; not proved here) -/
+/-! ## Layers L2 and L3 (the original statements; see `Props/C03b.lean`, `Props/C03c.lean` for what is proved) -/
 
 /-- **L2, AND** (what `andList` does with two comparators): matching a release candidate
 against the intersection of the two single-span sets is the conjunction of the two span
